@@ -783,5 +783,15 @@ pub fn sweep_cases() -> Vec<(String, FCase)> {
         p.push(FOp::BBuild { o: 0 });
         out.push((format!("misuse-push-full/N={n}"), FCase { plan: p }));
     }
+    // every destructure! shape once (no fault: the by-value reads themselves are the subject; under
+    // Miri this is where a misaligned or out-of-bounds read of a field shows)
+    for shape in 0..N_SHAPES {
+        let mut p = vec![FOp::NewArray { n: 8 }, FOp::NewArray { n: 8 }, FOp::ToConsumer { o: 0 }, FOp::ToConsumer { o: 0 }];
+        for i in 0..16 {
+            p.push(if i % 2 == 0 { FOp::CNext { o: i / 8 } } else { FOp::CNextBack { o: i / 8 } });
+        }
+        p.push(FOp::Destructure { shape });
+        out.push((format!("destructure/shape={shape}"), FCase { plan: p }));
+    }
     out
 }
